@@ -310,31 +310,28 @@ class Checker:
                 acc = (acc * (p - 1) + dx[i]) / p
                 ref[i] = acc
         a = np.asarray(ta.adx(c, p, True), dtype=float)
-        m = np.zeros(n, dtype=bool)
-        for i in range(n):
-            k = i - 2 * p
-            if k > 0 and (k + 1) * wr ** k * 100 * 8 <= 1e-5:
-                m[i:] = True
-                break
-        trs_floor = np.zeros(n, dtype=bool)
-        acc = tr[1]
+        # Error bound carried along the recursions instead of a fixed decay distance: two runs of the Wilder sums started from
+        # different seeds differ by at most R0 * wr^(i-1); DI = 100 * DM / TR and DX = 100 |+DM - -DM| / (+DM + -DM) amplify that by
+        # the inverse of their (possibly small) denominators, and ADX averages the DX errors. Wherever the textbook value is
+        # undefined (TR sum ~ 0, +DM + -DM ~ 0) the bound restarts at 100.
+        R0 = 1.5 * S + up[1] + dn[1] + 2 * tr[1]
+        sp2, sm2, st2 = up[1], dn[1], tr[1]
+        err_adx, err_di = np.full(n, 100.0), np.full(n, 100.0)
+        e = 100.0
         for i in range(2, n):
-            acc = acc - acc / p + tr[i]
-            trs_floor[i] = acc > 1e-6 * S * p
-        # the recursions carry state: demand the decay distance K also from the last point where the textbook value was undefined
-        K = next((k for k in range(1, n) if (k + 1) * wr ** k * 100 * 8 <= 1e-5), n)
-        with np.errstate(invalid='ignore'):
-            defined = trs_floor & (np.abs(pdi + mdi) > 1e-3)
-        since = np.zeros(n, dtype=int)
-        run = 0
-        for i in range(n):
-            run = run + 1 if defined[i] else 0
-            since[i] = run
-        settled = since > K
-        self.close('adx', 'value-after-decay', a, ref, 1e-3, rtol=1e-6, need=m & settled)
+            sp2, sm2, st2 = sp2 - sp2 / p + up[i], sm2 - sm2 / p + dn[i], st2 - st2 / p + tr[i]
+            res = R0 * wr ** (i - 1)
+            if st2 > 1e-6 * S * p and (sp2 + sm2) > 0:
+                err_di[i] = min(100.0, 400.0 * res / st2)
+                e_dx = min(100.0, 400.0 * res / (sp2 + sm2))
+                e = min(100.0, wr * e + e_dx / p) if i > 2 * p + 2 else 100.0
+            else:
+                e = 100.0
+            err_adx[i] = e
+        self.close('adx', 'value-after-decay', a, ref, 1e-3, rtol=1e-6, need=err_adx <= 1e-4)
         dv = ta.di(c, p, True)
-        self.close('di', 'plus:value-after-decay', dv.plus, pdi, 1e-3, rtol=1e-6, need=m & settled)
-        self.close('di', 'minus:value-after-decay', dv.minus, mdi, 1e-3, rtol=1e-6, need=m & settled)
+        self.close('di', 'plus:value-after-decay', dv.plus, pdi, 1e-3, rtol=1e-6, need=err_di <= 1e-4)
+        self.close('di', 'minus:value-after-decay', dv.minus, mdi, 1e-3, rtol=1e-6, need=err_di <= 1e-4)
 
 
 def check_case(case):
@@ -357,7 +354,8 @@ def run_shard(acc, shard, nshards, seed, tier):
     from vf.gen.indicators import SOURCE_TYPES
     known = runner.known_signatures('C15')
     kinds = ['walk', 'trend', 'downtrend', 'spikes', 'alternating', 'flatish', 'constant', 'monotone', 'walk', 'spikes', 'lattice', 'lattice', 'leading-zero-volume', 'gappy', 'gappy', 'flat-middle']
-    lens = [130, 200, 300, 600] if tier == 'quick' else [130, 200, 300, 600, 1500]
+    # long inputs too: closed forms that scale by powers of the smoothing factor overflow only beyond a thousand candles
+    lens = [130, 200, 300, 600, 130, 200, 300, 600, 1500, 4000] if tier == 'quick' else [130, 200, 300, 600, 1500, 1500, 4000, 9000]
     cases = st.fixed_dictionaries(dict(kind=st.sampled_from(kinds), n=st.sampled_from(lens), seed=st.integers(0, 2 ** 31),
                                        scale=st.sampled_from([100.0, 100.0, 1e-3, 25000.0, 1e-6, 1e6]),
                                        period=st.integers(2, 60), source_type=st.sampled_from(SOURCE_TYPES)))
